@@ -316,7 +316,17 @@ def rule_lex1(ctx):
         it = lp.iter
         rng = isinstance(it, ast.Call) and dotted(it.func) == "range" \
             and len(it.args) == 1 and dotted(it.args[0]) == kparam
-        if under and rng:
+        brk = next((x for x in ast.walk(lp) if isinstance(x, ast.Break)),
+                   None)
+        if under and rng and brk is not None:
+            r.violation(
+                "LEX1", f"{f.fq}|break", loc(f, brk), norm_stmt(lp)[:100],
+                "the pruning loop is left with `break`: the generators "
+                f"after the first one that breaks are never examined, so a "
+                "mark for a later j < k is lost and two words of one "
+                "element are accepted by the shortlex automaton",
+                instance=inst)
+        elif under and rng:
             r.ok("LEX1", inst, loc(f, lp), norm_stmt(lp)[:60],
                  f"under lex_reduced, over range({kparam})")
         elif not under:
@@ -612,3 +622,33 @@ def rule_sent1(ctx, rels):
     if n == 0:
         r.ok("SENT1", "modules", ",".join(rels), "",
              "no -1-marked table is used as an index")
+
+
+
+def rule_bfs4(ctx):
+    r = ctx.r
+    r.rule("BFS4", "find_small_roots expands the roots in the order they "
+                   "were found (an index over the growing list, or a FIFO "
+                   "work-list): find_root_from_vector recognises a reflected "
+                   "root only through neighbour links of roots expanded "
+                   "EARLIER, so a depth-first order (`todo.pop()`) leaves "
+                   "links unset and small roots unrecognised")
+    f = ctx.p.get_function(CA, "find_small_roots")
+    r.analysed(f)
+    pops = [c for c in ast.walk(f.node) if isinstance(c, ast.Call)
+            and isinstance(c.func, ast.Attribute)
+            and c.func.attr in ("pop", "popleft", "popright")]
+    inst = "find_small_roots:order"
+    lifo = [c for c in pops if c.func.attr == "pop" and (
+        not c.args or const_value(c.args[0]) == -1)]
+    if lifo:
+        r.violation(
+            "BFS4", f"{f.fq}|lifo", loc(f, lifo[0]), dotted(lifo[0])[:80],
+            f"`{dotted(lifo[0])[:40]}` takes the most recently found root "
+            "first (depth-first): roots of smaller depth may not be "
+            "expanded yet when a reflected root has to be recognised "
+            "through their links, so it is not recognised and the set of "
+            "small roots comes out wrong", instance=inst)
+    else:
+        r.ok("BFS4", inst, loc(f, f.node), "",
+             "index loop / FIFO order" if not pops else "FIFO work-list")
